@@ -46,6 +46,10 @@ theorem C04x_lazy_readers (l : Lazy α) (ctx : Ctx) (d : α) :
     rcases h : l.fetcher ctx with e | (_ | v) <;> rcases h' : l.fetcher Ctx.background with e' | (_ | v') <;>
       simp [Except.map, bind, Except.bind, pure, Except.pure, throw, throwThe, MonadExceptOf.throw]
 
+theorem C04x_lazy_get (l : Lazy α) (ctx : Ctx) : l.get ctx = getSpec (l.fetcher ctx) l.emptyErr := by
+  simp only [Lazy.get, getSpec]
+  rcases l.fetcher ctx with e | (_ | v) <;> rfl
+
 /-- `Get` fails with the lazy's OWN empty-value error exactly when the fetch succeeds with no value. -/
 theorem C04x_lazy_get_empty (l : Lazy α) (ctx : Ctx) (h : l.fetcher ctx = .ok none) :
     l.get ctx = .error l.emptyErr := by
@@ -325,5 +329,569 @@ theorem C04x_lazy_consume (l : Lazy α) (ctx : Ctx) (f : Ctx → α → Option E
   · rcases l.fetcher Ctx.background with e | (_ | v) <;> rfl
 
 end LazyLaws
+
+/-! ## Part B — FromLazy and the sources -/
+
+section Sources
+variable {α β κ ν : Type}
+
+/-- FromLazy denotes `[]` / `[x]` / the lazy's error (whatever that error is — io.EOF included, repaired). -/
+theorem C04x_fromLazy (l : Lazy α) (ctx : Ctx) (h : ctx.cancelled = false) :
+    (Src.fromLazy l ctx).collect ctx = (l.fetcher ctx).map Option.toList ∧
+    (Src.fromLazy l ctx).count ctx = (l.fetcher ctx).map (fun o => o.toList.length) := by
+  have hc : ctx.err = none := by simp [Ctx.err, h]
+  refine ⟨?_, ?_⟩ <;>
+    simp only [Src.collect, Src.count, consume_eq, Src.fromLazy, Lazy.getOptional] <;>
+    rcases l.fetcher ctx with e | (_ | v) <;> simp [hc, Except.map]
+
+/-- In particular an error lazy whose error is io.EOF is an error stream, not an empty one (finding L1, repaired). -/
+example : (Src.fromLazy (Lazy.error .eof : Lazy Int) ⟨false⟩).collect ⟨false⟩ = .error .eof := rfl
+example : (Src.fromLazy (Lazy.just (5 : Int)) ⟨false⟩).collect ⟨false⟩ = .ok [5] := rfl
+example : (Src.fromLazy (Lazy.empty : Lazy Int) ⟨false⟩).collect ⟨false⟩ = .ok [] := rfl
+
+/-- Every ordered source delivers its list; Empty nothing; Error its error (also under a cancelled context,
+because opening fails first).  Map sources deliver a permutation of the map's keys / values / entries,
+whatever order the runtime iterates in. -/
+theorem C04x_sources (xs : List α) (ctx : Ctx) (e : Err) (m order : List (κ × ν)) (hperm : order.Perm m) :
+    outcome (Src.fromSlice xs) ctx = (match ctx.err with | some e => .error e | none => .ok xs) ∧
+    Src.just xs = Src.fromSlice xs ∧ Src.fromIterator xs = Src.fromSlice xs ∧ Src.fromChannel xs = Src.fromSlice xs ∧
+    Src.fromIterator2 m = Src.fromSlice m ∧
+    outcome (Src.empty : Src α) ctx = (match ctx.err with | some e => .error e | none => .ok []) ∧
+    outcome (Src.error e : Src α) ctx = .error e ∧
+    (Src.fromMapKeys order).elems.Perm (m.map (·.1)) ∧
+    (Src.fromMapValues order).elems.Perm (m.map (·.2)) ∧
+    (Src.fromMapEntries order).elems.Perm m ∧
+    (Src.fromMapKeys order).fail = none ∧ (Src.fromMapKeys order).openErr = none := by
+  refine ⟨?_, rfl, rfl, rfl, rfl, ?_, rfl, hperm.map _, hperm.map _, hperm, rfl, rfl⟩ <;>
+    simp only [outcome, Src.fromSlice, Src.empty] <;> cases ctx.err <;> rfl
+
+/-- every terminal that reads the stream to its end is a function of `outcome` (see Part C), and `collect` is it -/
+theorem C04x_collect (s : Src α) (ctx : Ctx) : s.collect ctx = outcome s ctx := by
+  simp only [Src.collect, consume_eq, outcome, foldl_snoc_eq]
+  cases s.openErr <;> cases ctx.err <;> cases s.fail <;> simp
+
+theorem C04x_mustCollect (s : Src α) :
+    s.mustCollect = (match outcome s .background with | .ok l => .ret l | .error e => .panic e) := by
+  simp only [Src.mustCollect, consume_eq, outcome, foldl_snoc_eq]
+  cases s.openErr <;> cases s.fail <;> simp [Ctx.err, Ctx.background]
+
+theorem mapLoop_pure (f : α → β) (xs : List α) (fail : Option Err) :
+    Src.mapLoop (fun v => .ok (f v)) xs fail = (xs.map f, fail) := by
+  induction xs with
+  | nil => rfl
+  | cons x xs ih => simp [Src.mapLoop, ih]
+
+theorem filterLoop_pure (p : α → Bool) (xs : List α) (fail : Option Err) :
+    Src.filterLoop (fun v => .ok (p v)) xs fail = (xs.filter p, fail) := by
+  induction xs with
+  | nil => rfl
+  | cons x xs ih => simp only [Src.filterLoop, ih, List.filter_cons]
+
+theorem mapLoop_ok (f : α → Except Err β) (xs : List α) (fail : Option Err) (ys : List β)
+    (h : xs.mapM f = .ok ys) : Src.mapLoop f xs fail = (ys, fail) := by
+  induction xs generalizing ys with
+  | nil =>
+    have : ys = [] := by simpa [pure, Except.pure] using h.symm
+    subst this; rfl
+  | cons x xs ih =>
+    simp only [List.mapM_cons, bind, Except.bind] at h
+    rcases hx : f x with e | y
+    · simp [hx] at h
+    · simp only [hx] at h
+      rcases hxs : xs.mapM f with e | ys'
+      · simp [hxs] at h
+      · simp only [hxs, pure, Except.pure, Except.ok.injEq] at h
+        subst h
+        simp [Src.mapLoop, hx, ih ys' hxs]
+
+/-- Peek, Untyped, Map, Filter, MapWhileFiltering (pure functions), Limit / Skip / Page, FlatMap (inner streams
+that do not fail) on the delivered list: the list functions. -/
+theorem C04x_thin_ops (s : Src α) (f : α → β) (p : α → Bool) (w : α → Option β) [Inhabited β]
+    (g : α → List β) (n : Int) :
+    s.peek = s ∧ s.untyped = s ∧
+    (s.mapE (fun v => .ok (f v))).elems = s.elems.map f ∧ (s.mapE (fun v => .ok (f v))).fail = s.fail ∧
+    (s.filterE (fun v => .ok (p v))).elems = s.elems.filter p ∧ (s.filterE (fun v => .ok (p v))).fail = s.fail ∧
+    (s.mapWhileFilteringE (fun v => .ok (w v))).elems = s.elems.filterMap w ∧
+    (s.mapWhileFilteringE (fun v => .ok (w v))).fail = s.fail ∧
+    (s.skip n).elems = s.elems.drop n.toNat ∧
+    (0 < n → (s.limit n).elems = s.elems.take n.toNat) ∧
+    (n ≤ 0 → s.limit n = Src.empty) ∧
+    (s.flatMap (fun v => Src.fromSlice (g v))).elems = s.elems.flatMap g ∧
+    (s.flatMap (fun v => Src.fromSlice (g v))).fail = s.fail := by
+  have hflat : ∀ (xs : List α) (fail : Option Err),
+      Src.flatLoop (fun v => Src.fromSlice (g v)) xs fail = (xs.flatMap g, fail) := by
+    intro xs fail
+    induction xs with
+    | nil => rfl
+    | cons x xs ih =>
+      simp only [Src.fromSlice] at ih
+      simp [Src.flatLoop, Src.fromSlice, ih]
+  have hid : ∀ (xs : List α) (fail : Option Err), Src.mapLoop (fun v => Except.ok v) xs fail = (xs, fail) := by
+    intro xs fail
+    have := mapLoop_pure (fun v : α => v) xs fail
+    simpa using this
+  have hmwf : ∀ (xs : List α), ((xs.map w).filter (fun o => o.isSome)).map (fun o => o.getD default) = xs.filterMap w := by
+    intro xs
+    induction xs with
+    | nil => rfl
+    | cons x xs ih =>
+      simp only [List.map_cons, List.filter_cons, List.filterMap_cons]
+      cases hw : w x <;> simp [ih]
+  refine ⟨?_, ?_, ?_, ?_, ?_, ?_, ?_, ?_, rfl, ?_, ?_, ?_, ?_⟩
+  · cases s; simp [Src.peek, Src.mapE, hid]
+  · cases s; simp [Src.untyped, Src.mapE, hid]
+  · simp [Src.mapE, mapLoop_pure]
+  · simp [Src.mapE, mapLoop_pure]
+  · simp [Src.filterE, filterLoop_pure]
+  · simp [Src.filterE, filterLoop_pure]
+  · simp only [Src.mapWhileFilteringE, Src.mapE, Src.filterE, mapLoop_pure, filterLoop_pure]; exact hmwf _
+  · simp only [Src.mapWhileFilteringE, Src.mapE, Src.filterE, mapLoop_pure, filterLoop_pure]
+  · intro h; simp [Src.limit, Int.not_le.2 h]
+  · intro h; simp [Src.limit, h]
+  · simp [Src.flatMap, hflat]
+  · simp [Src.flatMap, hflat]
+
+/-- Page(p, size) of a stream that does not fail: `(l.drop (p*size)).take size`; nothing for invalid arguments. -/
+theorem C04x_page (s : Src α) (ctx : Ctx) (pn ps : Int) (h : s.fail = none) :
+    outcome (s.page pn ps) ctx =
+      (if pn < 0 ∨ ps ≤ 0 then (match ctx.err with | some e => .error e | none => .ok [])
+       else (outcome s ctx).map (fun l => (l.drop (pn * ps).toNat).take ps.toNat)) := by
+  by_cases hinv : pn < 0 ∨ ps ≤ 0
+  · simp only [Src.page, hinv, if_true, outcome, Src.empty]; cases ctx.err <;> rfl
+  · have hps : ¬ ps ≤ 0 := fun hh => hinv (Or.inr hh)
+    have hpn : ¬ pn < 0 := fun hh => hinv (Or.inl hh)
+    simp only [Src.page, hpn, hps, or_self, if_false, Src.limit, Src.skip, outcome, h]
+    cases s.openErr <;> cases ctx.err <;> simp [Except.map]
+
+example : outcome ((Src.fromSlice [0, 1, 2, 3, 4] : Src Int).page 1 2) ⟨false⟩ = .ok [2, 3] := rfl
+example : outcome ((Src.fromSlice [0, 1, 2] : Src Int).page 5 2) ⟨false⟩ = .ok [] := rfl
+example : outcome ((Src.error (.user 1) : Src Int).page (-1) 2) ⟨false⟩ = .ok [] := rfl
+
+end Sources
+
+/-! ## Part C — terminals -/
+
+section Terminals
+variable {α ρ : Type}
+
+/-- Count = length. -/
+theorem C04x_count (s : Src α) (ctx : Ctx) : s.count ctx = (outcome s ctx).map List.length := by
+  simp only [Src.count, consume_eq, outcome, foldl_count]
+  cases s.openErr <;> cases ctx.err <;> cases s.fail <;> simp [Except.map]
+
+/-- FindLast = getLast?, with its own empty-value error. -/
+theorem C04x_findLast (s : Src α) (ctx : Ctx) :
+    (s.findLast).getOptional ctx = (outcome s ctx).map List.getLast? ∧
+    (s.findLast).get ctx = getSpec ((outcome s ctx).map List.getLast?) .noLast := by
+  have h1 : (s.findLast).fetcher ctx = (outcome s ctx).map List.getLast? := by
+    simp only [Src.findLast, Lazy.orElseThrow, Lazy.newLazyOptional, Lazy.newLazy, consume_eq, outcome, foldl_last]
+    cases s.openErr <;> cases ctx.err <;> cases s.fail <;> simp [Except.map]
+    cases s.elems.getLast? <;> rfl
+  exact ⟨h1, by rw [C04x_lazy_get, h1]; rfl⟩
+
+/-- FindFirst = head? of what `Limit(1)` delivers: the first element if there is one — EVEN IF the stream
+would fail later —, otherwise the provider's error or "empty". -/
+theorem C04x_findFirst (s : Src α) (ctx : Ctx) :
+    (s.findFirst).getOptional ctx = (outcome (s.limit 1) ctx).map List.head? ∧
+    (s.findFirst).get ctx = getSpec ((outcome (s.limit 1) ctx).map List.head?) .noFirst ∧
+    (s.fail = none → (s.findFirst).getOptional ctx = (outcome s ctx).map List.head?) ∧
+    (Runs s ctx → ∀ x xs, s.elems = x :: xs → (s.findFirst).get ctx = .ok x) := by
+  have h1 : (s.findFirst).fetcher ctx = (outcome (s.limit 1) ctx).map List.head? := by
+    simp only [Src.findFirst, Lazy.orElseThrow, Lazy.newLazyOptional, Lazy.newLazy, C04x_collect]
+    rcases outcome (s.limit 1) ctx with e | (_ | ⟨x, xs⟩) <;> rfl
+  have h2 : s.fail = none → outcome (s.limit 1) ctx = (outcome s ctx).map (List.take 1) := by
+    intro hf
+    simp only [outcome, Src.limit, hf]
+    cases s.openErr <;> cases ctx.err <;> simp [Except.map]
+  refine ⟨h1, by rw [C04x_lazy_get, h1]; rfl, ?_, ?_⟩
+  · intro hf
+    show (s.findFirst).fetcher ctx = _
+    rw [h1, h2 hf]
+    rcases outcome s ctx with e | (_ | ⟨x, xs⟩) <;> rfl
+  · intro hr x xs hx
+    rw [C04x_lazy_get, h1]
+    simp only [outcome, Src.limit, hr.1, hr.ctxErr, hx]
+    simp [getSpec, Except.map, bind, Except.bind, pure, Except.pure]
+
+/-- FindFirstAndLast = (head, last) of a non-empty list. -/
+theorem C04x_findFirstAndLast (s : Src α) (ctx : Ctx) :
+    (Src.findFirstAndLast s).getOptional ctx =
+      (outcome s ctx).map (fun l => match l.head?, l.getLast? with
+        | some a, some b => some (a, b) | _, _ => none) ∧
+    (Src.findFirstAndLast s).emptyErr = .noFirstLast := by
+  refine ⟨?_, rfl⟩
+  show (Src.findFirstAndLast s).fetcher ctx = _
+  simp only [Src.findFirstAndLast, Lazy.orElseThrow, Lazy.newLazyOptional, Lazy.newLazy, consume_eq, outcome,
+    foldl_firstLast]
+  cases s.openErr <;> cases ctx.err <;> cases s.fail <;> simp [Except.map]
+  rcases s.elems with _ | ⟨x, xs⟩
+  · rfl
+  · cases h : (x :: xs).getLast? with
+    | none => simp at h
+    | some v => simp
+
+/-- IsEmpty: true iff nothing is delivered (decided on the first provider call). -/
+theorem C04x_isEmpty (s : Src α) (ctx : Ctx) :
+    s.isEmpty ctx = (outcome (s.limit 1) ctx).map List.isEmpty ∧
+    (s.fail = none → s.isEmpty ctx = (outcome s ctx).map List.isEmpty) := by
+  have h0 : s.isEmpty ctx = ((s.findFirst).fetcher ctx).map (·.isNone) := by
+    simp only [Src.isEmpty, Lazy.isEmpty, Lazy.getOptional]
+    rcases (s.findFirst).fetcher ctx with e | (_ | v) <;> rfl
+  refine ⟨?_, ?_⟩
+  · rw [h0, show (s.findFirst).fetcher ctx = _ from (C04x_findFirst s ctx).1]
+    rcases outcome (s.limit 1) ctx with e | (_ | ⟨x, xs⟩) <;> rfl
+  · intro hf
+    rw [h0, show (s.findFirst).fetcher ctx = _ from (C04x_findFirst s ctx).2.2.1 hf]
+    rcases outcome s ctx with e | (_ | ⟨x, xs⟩) <;> rfl
+
+/-- Reduce = foldl (every accumulator type, every function). -/
+theorem C04x_reduce (s : Src α) (ctx : Ctx) (init : ρ) (f : ρ → α → ρ) :
+    s.reduce ctx init f = (outcome s ctx).map (List.foldl f init) ∧
+    s.mustReduce init f = (match (outcome s .background).map (List.foldl f init) with
+      | .ok r => .ret r | .error e => .panic e) ∧
+    (s.reduceLazy init f).get ctx = (outcome s ctx).map (List.foldl f init) ∧
+    (s.reduceLazy init f).getOptional ctx = (outcome s ctx).map (fun l => some (l.foldl f init)) := by
+  have h1 : ∀ c, s.reduce c init f = (outcome s c).map (List.foldl f init) := by
+    intro c
+    have := consume_eq s c f init
+    simp only [Src.consume] at this
+    simp only [Src.reduce, Src.reduceWithErr, Src.reduceWithErrAndCtx, this, outcome]
+    cases s.openErr <;> cases c.err <;> cases s.fail <;> simp [Except.map]
+  have h2 : (s.reduceLazy init f).fetcher ctx = (s.reduce ctx init f).map some := by
+    simp only [Src.reduceLazy, Src.reduceLazyWithErrAndCtx, Lazy.new, Lazy.newLazy, Src.reduce, Src.reduceWithErr]
+    rcases s.reduceWithErrAndCtx ctx init _ with e | v <;> rfl
+  refine ⟨h1 ctx, ?_, ?_, ?_⟩
+  · simp only [Src.mustReduce, h1]
+    rcases outcome s Ctx.background with e | l <;> rfl
+  · rw [C04x_lazy_get, h2, h1]
+    rcases outcome s ctx with e | l <;> rfl
+  · show (s.reduceLazy init f).fetcher ctx = _
+    rw [h2, h1]
+    rcases outcome s ctx with e | l <;> rfl
+
+/-- ReduceWithErr(AndCtx) = foldlM: the first error of the reducer wins, then the provider's own end. -/
+theorem C04x_reduceWithErr (s : Src α) (ctx : Ctx) (init : ρ) (f : Ctx → ρ → α → Except Err ρ) (h : Runs s ctx) :
+    s.reduceWithErrAndCtx ctx init f =
+      (match s.elems.foldlM (f ctx) init with
+       | .error e => .error e
+       | .ok r => match s.fail with | some e => .error e | none => .ok r) := by
+  obtain ⟨l1, l2⟩ := consumeLoop_foldlM (f ctx) s.elems s.fail init
+  simp only [Src.reduceWithErrAndCtx, Src.consumeWithErr, h.1, h.ctxErr]
+  rcases hf : s.elems.foldlM (f ctx) init with e | r
+  · rw [hf] at l1
+    rcases hc : Src.consumeLoop (fun ret v => f ctx ret v) s.elems s.fail init with ⟨st, oe⟩
+    rw [hc] at l1; simp only at l1; subst l1; rfl
+  · rw [hf] at l1
+    have l2' := l2 r hf
+    rcases hc : Src.consumeLoop (fun ret v => f ctx ret v) s.elems s.fail init with ⟨st, oe⟩
+    rw [hc] at l1 l2'; simp only at l1 l2'; subst l1 l2'
+    cases s.fail <;> rfl
+
+/-- Max / Min over Int: the true extremum of a non-empty stream — an element of it that bounds all the
+others (so the maximum of negative values is negative: D9 repaired) — and the zero value on an empty one. -/
+theorem C04x_min_max (s : Src Int) (ctx : Ctx) :
+    s.max ctx = (outcome s ctx).map (fun l => l.max?.getD 0) ∧
+    s.min ctx = (outcome s ctx).map (fun l => l.min?.getD 0) ∧
+    (∀ m, s.max ctx = .ok m → (s.elems = [] ∧ m = 0) ∨ (m ∈ s.elems ∧ ∀ x ∈ s.elems, x ≤ m)) ∧
+    (∀ m, s.min ctx = .ok m → (s.elems = [] ∧ m = 0) ∨ (m ∈ s.elems ∧ ∀ x ∈ s.elems, m ≤ x)) := by
+  have hmax : s.max ctx = (outcome s ctx).map (fun l => l.max?.getD 0) := by
+    simp only [Src.max, (C04x_reduce s ctx none (Src.extremumReduce Max.max)).1]
+    rcases outcome s ctx with e | (_ | ⟨x, xs⟩)
+    · rfl
+    · rfl
+    · simp only [Except.map, List.foldl_cons]
+      rw [show Src.extremumReduce Max.max none x = some x from rfl, foldl_extremum]; rfl
+  have hmin : s.min ctx = (outcome s ctx).map (fun l => l.min?.getD 0) := by
+    simp only [Src.min, (C04x_reduce s ctx none (Src.extremumReduce Min.min)).1]
+    rcases outcome s ctx with e | (_ | ⟨x, xs⟩)
+    · rfl
+    · rfl
+    · simp only [Except.map, List.foldl_cons]
+      rw [show Src.extremumReduce Min.min none x = some x from rfl, foldl_extremum]; rfl
+  have hout : ∀ l, outcome s ctx = .ok l → l = s.elems := by
+    intro l
+    simp only [outcome]
+    cases s.openErr <;> cases ctx.err <;> cases s.fail <;> simp
+    exact fun h => h.symm
+  refine ⟨hmax, hmin, ?_, ?_⟩
+  · intro m hm
+    rw [hmax] at hm
+    rcases ho : outcome s ctx with e | l
+    · simp [ho, Except.map] at hm
+    · have hl := hout l ho
+      subst hl
+      simp only [ho, Except.map, Except.ok.injEq] at hm
+      rcases hs : s.elems with _ | ⟨x, xs⟩
+      · left; simp [hs, List.max?] at hm; exact ⟨rfl, hm.symm⟩
+      · right
+        simp only [hs, List.max?, Option.getD_some] at hm
+        obtain ⟨a1, a2, a3⟩ := foldl_max_spec xs x
+        subst hm
+        refine ⟨?_, ?_⟩
+        · rcases a1 with a | a
+          · rw [a]; exact List.mem_cons_self
+          · exact List.mem_cons_of_mem _ a
+        · intro y hy
+          rcases List.mem_cons.1 hy with rfl | hy
+          · exact a2
+          · exact a3 y hy
+  · intro m hm
+    rw [hmin] at hm
+    rcases ho : outcome s ctx with e | l
+    · simp [ho, Except.map] at hm
+    · have hl := hout l ho
+      subst hl
+      simp only [ho, Except.map, Except.ok.injEq] at hm
+      rcases hs : s.elems with _ | ⟨x, xs⟩
+      · left; simp [hs, List.min?] at hm; exact ⟨rfl, hm.symm⟩
+      · right
+        simp only [hs, List.min?, Option.getD_some] at hm
+        obtain ⟨a1, a2, a3⟩ := foldl_min_spec xs x
+        subst hm
+        refine ⟨?_, ?_⟩
+        · rcases a1 with a | a
+          · rw [a]; exact List.mem_cons_self
+          · exact List.mem_cons_of_mem _ a
+        · intro y hy
+          rcases List.mem_cons.1 hy with rfl | hy
+          · exact a2
+          · exact a3 y hy
+
+/-- MaxLazy / MinLazy / MustMax / MustMin / MustCount are the same functions behind a Lazy / a panic. -/
+theorem C04x_min_max_forms (s : Src Int) (ctx : Ctx) :
+    (s.maxLazy).get ctx = s.max ctx ∧ (s.minLazy).get ctx = s.min ctx ∧
+    (s.maxLazy).getOptional ctx = (s.max ctx).map some ∧ (s.minLazy).getOptional ctx = (s.min ctx).map some ∧
+    s.mustMax = (match s.max .background with | .ok v => .ret v | .error e => .panic e) ∧
+    s.mustMin = (match s.min .background with | .ok v => .ret v | .error e => .panic e) ∧
+    s.mustCount = (match s.count .background with | .ok v => .ret v | .error e => .panic e) := by
+  have hx : (s.maxLazy).fetcher ctx = (s.max ctx).map some := by
+    simp only [Src.maxLazy, Src.max, Src.reduceLazy, Src.reduceLazyWithErrAndCtx, Lazy.map, Lazy.mapWithErrAndCtx,
+      Lazy.new, Lazy.newLazy, Lazy.getOptional, Src.reduce, Src.reduceWithErr]
+    rcases s.reduceWithErrAndCtx ctx none _ with e | v <;> rfl
+  have hn : (s.minLazy).fetcher ctx = (s.min ctx).map some := by
+    simp only [Src.minLazy, Src.min, Src.reduceLazy, Src.reduceLazyWithErrAndCtx, Lazy.map, Lazy.mapWithErrAndCtx,
+      Lazy.new, Lazy.newLazy, Lazy.getOptional, Src.reduce, Src.reduceWithErr]
+    rcases s.reduceWithErrAndCtx ctx none _ with e | v <;> rfl
+  refine ⟨?_, ?_, hx, hn, ?_, ?_, ?_⟩
+  · rw [C04x_lazy_get, hx]; rcases s.max ctx with e | v <;> rfl
+  · rw [C04x_lazy_get, hn]; rcases s.min ctx with e | v <;> rfl
+  · simp only [Src.mustMax]; rcases s.max Ctx.background with e | v <;> rfl
+  · simp only [Src.mustMin]; rcases s.min Ctx.background with e | v <;> rfl
+  · simp only [Src.mustCount]; rcases s.count Ctx.background with e | v <;> rfl
+
+/-- Non-vacuity: a stream of negative values, a stream failing after two elements, an empty stream. -/
+example : (Src.fromSlice [-3, -1, -2] : Src Int).max ⟨false⟩ = .ok (-1) := rfl
+example : (Src.fromSlice ([] : List Int)).min ⟨false⟩ = .ok 0 := rfl
+example : ({ elems := [4, 5], fail := some (.user 1) } : Src Int).findFirst.get ⟨false⟩ = .ok 4 := rfl
+example : ({ elems := [4, 5], fail := some (.user 1) } : Src Int).findLast.get ⟨false⟩ = .error (.user 1) := rfl
+example : (Src.fromSlice ([] : List Int)).findFirst.get ⟨false⟩ = .error .noFirst := rfl
+example : (Src.fromSlice ([] : List Int)).findFirst.getOptional ⟨false⟩ = .ok none := rfl
+example : (Src.fromSlice [1, 2, 3] : Src Int).reduce ⟨false⟩ 0 (fun a v => a * 10 + v) = .ok 123 := rfl
+example : (Src.fromSlice [1, 2, 3] : Src Int).count ⟨true⟩ = .error .cancelled := rfl
+
+end Terminals
+
+/-! ## Part D — collectors -/
+
+section Collectors
+variable {α κ ν : Type} [DecidableEq κ]
+
+/-- CollectToMap: fails with the duplicate-key error IFF two elements produce the same key; otherwise the
+map holds exactly the produced associations (and each key once). -/
+theorem C04x_collectToMap (s : Src α) (ctx : Ctx) (kv : α → κ × ν) (h : Runs s ctx) (hf : s.fail = none) :
+    ((s.elems.map (fun x => (kv x).1)).Nodup →
+      ∃ m, s.collectToMap ctx kv = .ok m ∧ m.keys.Nodup ∧
+        ∀ k v, m.get? k = some v ↔ ∃ x ∈ s.elems, kv x = (k, v)) ∧
+    (¬ (s.elems.map (fun x => (kv x).1)).Nodup → s.collectToMap ctx kv = .error .dupKey) := by
+  constructor
+  · intro hnd
+    obtain ⟨m', h1, h2, h3⟩ := toMap_loop_ok kv s.elems s.fail ([] : GoMap κ ν) hnd (by simp [GoMap.keys])
+    refine ⟨m', ?_, h3 (by simp [GoMap.keys]), ?_⟩
+    · simp only [Src.collectToMap, Src.consumeWithErr, h.1, h.ctxErr, h1]; rw [hf]
+    · intro k v; rw [h2]; simp [GoMap.get?]
+  · intro hnd
+    have := toMap_loop_dup kv s.elems s.fail ([] : GoMap κ ν) (fun hh => hnd hh.1)
+    simp only [Src.collectToMap, Src.consumeWithErr, h.1, h.ctxErr]
+    rcases hc : Src.consumeLoop (Src.collectToMapStep kv) s.elems s.fail [] with ⟨st, oe⟩
+    rw [hc] at this; simp only at this; subst this; rfl
+
+/-- CollectToSet: duplicate-key error IFF an element occurs twice; otherwise exactly the elements, mapped to true. -/
+theorem C04x_collectToSet (s : Src κ) (ctx : Ctx) (h : Runs s ctx) (hf : s.fail = none) :
+    (s.elems.Nodup → ∃ m, s.collectToSet ctx = .ok m ∧ m.keys.Nodup ∧
+        ∀ k b, m.get? k = some b ↔ (k ∈ s.elems ∧ b = true)) ∧
+    (¬ s.elems.Nodup → s.collectToSet ctx = .error .dupKey) ∧
+    s.mustCollectToSet = (match s.collectToSet .background with | .ok m => .ret m | .error e => .panic e) := by
+  have hstep : (Src.collectToSetStep : GoMap κ Bool → κ → _) = Src.collectToMapStep (fun k => (k, true)) := by
+    funext m k; simp only [Src.collectToSetStep, Src.collectToMapStep]; cases m.get? k <;> rfl
+  have heq : s.collectToSet ctx = s.collectToMap ctx (fun k => (k, true)) := by
+    simp only [Src.collectToSet, Src.collectToMap, hstep]
+    rcases s.consumeWithErr ctx (Src.collectToMapStep fun k => (k, true)) [] with ⟨st, _ | e⟩ <;> rfl
+  obtain ⟨a, b⟩ := C04x_collectToMap s ctx (fun k => (k, true)) h hf
+  simp only [List.map_id'] at a b
+  refine ⟨?_, ?_, ?_⟩
+  · intro hnd
+    obtain ⟨m, h1, h2, h3⟩ := a hnd
+    refine ⟨m, heq ▸ h1, h2, ?_⟩
+    intro k bb; rw [h3]
+    constructor
+    · rintro ⟨x, hx, hxe⟩; simp only [Prod.mk.injEq] at hxe; exact ⟨hxe.1 ▸ hx, hxe.2.symm⟩
+    · rintro ⟨hk, rfl⟩; exact ⟨k, hk, rfl⟩
+  · intro hnd; rw [heq]; exact b hnd
+  · simp only [Src.mustCollectToSet]; rcases s.collectToSet Ctx.background with e | v <;> rfl
+
+/-- CollectCountGroupedBy: every key maps to the number of elements of its group; keys without elements are absent. -/
+theorem C04x_collectCountGroupedBy (s : Src α) (ctx : Ctx) (g : α → κ) (h : Runs s ctx) (hf : s.fail = none) :
+    ∃ m, s.collectCountGroupedBy ctx g = .ok m ∧ m.keys.Nodup ∧
+      ∀ k, m.get? k = (if s.elems.countP (fun v => g v = k) = 0 then none
+                       else some (s.elems.countP (fun v => g v = k))) := by
+  refine ⟨s.elems.foldl (Src.countStep g) [], ?_, keys_foldl_count_nodup g _ _ (by simp [GoMap.keys]), ?_⟩
+  · simp only [Src.collectCountGroupedBy, consume_eq, h.1, h.ctxErr, hf]
+  · intro k; rw [get?_foldl_count]; simp [GoMap.get?]
+
+/-- CollectToMapOverrideDuplicates: every key maps to the LAST element of its group. -/
+theorem C04x_collectOverride (s : Src α) (ctx : Ctx) (g : α → κ) (h : Runs s ctx) (hf : s.fail = none) :
+    ∃ m, s.collectToMapOverrideDuplicates ctx g = .ok m ∧ m.keys.Nodup ∧
+      ∀ k, m.get? k = s.elems.reverse.find? (fun v => g v = k) := by
+  refine ⟨s.elems.foldl (Src.overrideStep g) [], ?_, ?_, ?_⟩
+  · simp only [Src.collectToMapOverrideDuplicates, consume_eq, h.1, h.ctxErr, hf]
+  · exact keys_foldl_nodup g id _ _ (by simp [GoMap.keys])
+  · intro k
+    have := get?_foldl_override g id s.elems ([] : GoMap κ α) k
+    simp only [id] at this
+    show GoMap.get? (s.elems.foldl (fun (m : GoMap κ α) v => GoMap.set m (g v) v) []) k = _
+    rw [this]
+    cases s.elems.reverse.find? (fun v => decide (g v = k)) <;> rfl
+
+/-- A failing / cancelled / unopenable stream makes every collector return that error. -/
+theorem C04x_collectors_error (s : Src α) (ctx : Ctx) (kv : α → κ × ν) (g : α → κ) (e : Err)
+    (h : s.openErr = some e ∨ (s.openErr = none ∧ ctx.err = some e)) :
+    s.collectToMap ctx kv = .error e ∧ s.collectCountGroupedBy ctx g = .error e ∧
+    s.collectToMapOverrideDuplicates ctx g = .error e := by
+  rcases h with h | ⟨h1, h2⟩
+  · simp [Src.collectToMap, Src.collectCountGroupedBy, Src.collectToMapOverrideDuplicates, Src.consume,
+      Src.consumeWithErr, h]
+  · simp [Src.collectToMap, Src.collectCountGroupedBy, Src.collectToMapOverrideDuplicates, Src.consume,
+      Src.consumeWithErr, h1, h2]
+
+example : (Src.fromSlice [3, 4, 6] : Src Int).collectToMap ⟨false⟩ (fun x => (x.tmod 3, x)) = .error .dupKey := rfl
+example : (Src.fromSlice [3, 4, 5] : Src Int).collectToMap ⟨false⟩ (fun x => (x.tmod 3, x)) = .ok [(0, 3), (1, 4), (2, 5)] := rfl
+example : (Src.fromSlice [3, 4, 6] : Src Int).collectToMapOverrideDuplicates ⟨false⟩ (fun x => x.tmod 3) = .ok [(0, 6), (1, 4)] := rfl
+example : (Src.fromSlice [3, 4, 6] : Src Int).collectCountGroupedBy ⟨false⟩ (fun x => x.tmod 3) = .ok [(0, 2), (1, 1)] := rfl
+
+end Collectors
+
+/-! ## Part E — random sampling -/
+
+section Sampling
+variable {α : Type}
+
+/-- **Reservoir sampling, for EVERY oracle** (any function at all as the sequence of `rand.Intn` answers):
+the sample has length `min k n`, is a sub-multiset of the input (a permutation of a sublist), and IS the
+input when `n ≤ k`.  `k ≤ 0` yields the empty sample without materialising the stream. -/
+theorem C04x_sample (s : Src α) (ctx : Ctx) (k : Int) (oracle : Nat → Nat) (h : Runs s ctx) (hf : s.fail = none) :
+    ∃ r, s.collectRandomSample ctx k oracle = .ok r ∧
+      r.length = min k.toNat s.elems.length ∧
+      (∃ p, r.Perm p ∧ p.Sublist s.elems) ∧
+      (s.elems.length ≤ k.toNat → r = s.elems) := by
+  by_cases hk : k ≤ 0
+  · refine ⟨[], by simp [Src.collectRandomSample, hk], ?_, ⟨[], List.Perm.refl _, List.nil_sublist _⟩, ?_⟩
+    · have : k.toNat = 0 := by omega
+      simp [this]
+    · intro hle
+      have : k.toNat = 0 := by omega
+      rw [this] at hle
+      exact (List.length_eq_zero_iff.1 (by omega)).symm
+  · have inv := sampleInv_foldl k.toNat oracle s.elems [] ([], 0) (sampleInv_init k.toNat)
+    simp only [List.nil_append] at inv
+    obtain ⟨_, i2, i3, i4⟩ := inv
+    refine ⟨(s.elems.foldl (Src.sampleStep k.toNat oracle) ([], 0)).1, ?_, i2, i3, i4⟩
+    simp only [Src.collectRandomSample, hk, if_false, consume_eq, h.1, h.ctxErr, hf]
+
+/-- The stream form RandomSample(k) delivers exactly what CollectRandomSample returns (the collector runs in Open). -/
+theorem C04x_randomSample_stream (s : Src α) (ctx : Ctx) (k : Int) (oracle : Nat → Nat) :
+    outcome (s.randomSample ctx k oracle) ctx =
+      (match ctx.err with | some e => (match s.collectRandomSample ctx k oracle with | .error e' => .error e' | .ok _ => .error e)
+                          | none => s.collectRandomSample ctx k oracle) := by
+  simp only [Src.randomSample, outcome]
+  rcases s.collectRandomSample ctx k oracle with e | l <;> cases ctx.err <;> rfl
+
+/-- A failing or cancelled stream: the error (but not for `k ≤ 0`, where the stream is never touched). -/
+theorem C04x_sample_error (s : Src α) (ctx : Ctx) (k : Int) (oracle : Nat → Nat) (e : Err) (hk : 0 < k)
+    (h : outcome s ctx = .error e) : s.collectRandomSample ctx k oracle = .error e := by
+  have hk' : ¬ k ≤ 0 := by omega
+  simp only [Src.collectRandomSample, hk', if_false, consume_eq]
+  simp only [outcome] at h
+  cases ho : s.openErr <;> cases hc : ctx.err <;> cases hf : s.fail <;> simp_all
+
+example : (Src.fromSlice [10, 20, 30, 40, 50] : Src Int).collectRandomSample ⟨false⟩ 2 (fun i => i - 2) = .ok [30, 40] := rfl
+example : (Src.fromSlice [10, 20] : Src Int).collectRandomSample ⟨false⟩ 5 (fun _ => 0) = .ok [10, 20] := rfl
+example : (Src.error (.user 1) : Src Int).collectRandomSample ⟨false⟩ 0 (fun _ => 0) = .ok [] := rfl
+
+end Sampling
+
+/-! ## Part F — Iterator / IndexedIterator -/
+
+section Iterator
+variable {α : Type}
+
+/-- `for v := range s.Iterator { seen = append(seen, v); if n == j { break }; n++ }`:
+the loop body sees exactly the first `j+1` delivered elements (all of them without a break), `yield` is never
+called again after it returned false, and the loop panics (MustGetOptional) iff it ran into the stream's
+error before breaking. -/
+theorem C04x_iterator (s : Src α) (j : Option Nat) :
+    (s.openErr = none →
+      (s.iterator (recBody j) []).1 = (match j with | none => s.elems | some j => s.elems.take (j + 1))) ∧
+    (s.iterator (recBody j) []).2 =
+      (match s.openErr with
+       | some e => .panic e
+       | none =>
+         match s.fail with
+         | none => .ret ()
+         | some e => if (match j with | none => true | some j => decide (s.elems.length ≤ j)) then .panic e else .ret ()) := by
+  cases ho : s.openErr with
+  | some e => simp [Src.iterator, ho]
+  | none =>
+    cases j with
+    | none =>
+      simp only [Src.iterator, ho, iterFirst_noBreak, List.nil_append, forall_const]
+      cases s.fail <;> simp
+    | some j =>
+      obtain ⟨h1, h2⟩ := iterFirst_break j s.elems s.fail [] (by simp)
+      simp only [List.length_nil, Nat.sub_zero, List.nil_append] at h1 h2
+      rcases hc : Src.iterFirst (recBody (some j)) s.elems s.fail [] with ⟨st, r⟩
+      rw [hc] at h1 h2; simp only at h1 h2
+      subst h1
+      simp only [Src.iterator, ho, hc, forall_const]
+      by_cases hle : s.elems.length ≤ j
+      · simp only [hle, if_true] at h2
+        subst h2
+        cases s.fail <;> simp [hle]
+      · simp only [hle, if_false] at h2
+        subst h2
+        cases s.fail <;> simp [hle]
+
+/-- IndexedIterator: the same prefix, numbered 0, 1, 2, … -/
+theorem C04x_indexedIterator (s : Src α) (j : Option Nat) (h : s.openErr = none) :
+    ((s.indexedIterator (recBodyIdx j) []).1).map (·.2) = (s.iterator (recBody j) []).1 ∧
+    ((s.indexedIterator (recBodyIdx j) []).1).map (·.1) = List.range (s.indexedIterator (recBodyIdx j) []).1.length ∧
+    (s.indexedIterator (recBodyIdx j) []).2 = (s.iterator (recBody j) []).2 := by
+  obtain ⟨k1, k2, k3⟩ := iterFirst_idx j s.elems s.fail [] [] rfl rfl
+  simp only [List.length_nil] at k1 k2 k3
+  simp only [Src.indexedIterator, Src.iterator, h]
+  rcases hh : Src.iterFirst (fun (q : List (Nat × α) × Nat) v =>
+      (((recBodyIdx j q.1 q.2 v).1, q.2 + 1), (recBodyIdx j q.1 q.2 v).2)) s.elems s.fail (([] : List (Nat × α)), 0) with ⟨st, r⟩
+  rw [hh] at k1 k2 k3
+  simp only at k1 k2 k3
+  rcases hr : Src.iterFirst (recBody j) s.elems s.fail [] with ⟨st', r'⟩
+  rw [hr] at k1 k3
+  simp only at k1 k3
+  subst k3
+  cases r <;> exact ⟨k1, k2, rfl⟩
+
+example : ((Src.fromSlice [5, 6, 7, 8] : Src Int).iterator (recBody (some 1)) []).1 = [5, 6] := rfl
+example : (({ elems := [5, 6], fail := some (.user 2) } : Src Int).iterator (recBody (some 1)) []) = ([5, 6], .ret ()) := rfl
+example : (({ elems := [5, 6], fail := some (.user 2) } : Src Int).iterator (recBody (some 2)) []) = ([5, 6], .panic (.user 2)) := rfl
+
+end Iterator
 
 end ShpanVerif.Props.C04Ext
